@@ -51,10 +51,10 @@ UnmarshalJSON / UnmarshalText call is made — a slice made in the function and 
 (`src := buf[start:end]`) -/
 theorem callbacks_get_private_bytes :
     aliasCallbackArgs.map (fun e => (e.1, e.2.2)) =
-      [("decodeStreamTextUnmarshaler", "dst := make([]byte, len(src))"),
+      [("decodeStreamTextUnmarshaler", "dst := make([]byte, len(src)) ; dst, ok := unquoteBytes(dst)"),
        ("decodeStreamUnmarshaler", "dst := make([]byte, len(src))"),
        ("decodeStreamUnmarshalerContext", "dst := make([]byte, len(src))"),
-       ("decodeTextUnmarshaler", "src := buf[start:end] ; src = s"),
+       ("decodeTextUnmarshaler", "s, ok := unquoteBytes(src)"),
        ("decodeUnmarshaler", "dst := make([]byte, len(src))"),
        ("decodeUnmarshalerContext", "dst := make([]byte, len(src))"),
        ("unmarshalJSONDecoder.Decode", "dst := make([]byte, len(src))"),
